@@ -18,8 +18,10 @@ H.append({"name":"H_cancel","tiers":Q,"scale":"b2","preemptions":0,"bounds":"fou
   "param_sets":grid([2],[2048,2048+3],[0,1,2],[0,1,2])})
 H.append({"name":"H_cancel","tiers":Q,"scale":"b2","preemptions":0,"bounds":"files of 3B+1 bytes damaged in every block: the contiguous run exceeds the scaled MaxWoundSize (2B), so the aggregator's size-limit path runs; all consumers, all cancel modes",
   "param_sets":[dict(p,big=1) for p in grid([2],[1,3],[0,1,2],[0,1,2])]})
-H.append({"name":"H_cancel","tiers":T,"scale":"b2","preemptions":2,"bounds":"2-3 files, all damage patterns, all cancel modes, all consumers; at most 2 preemptions","max_seconds":1700,
-  "param_sets":grid([2,3],[0,1,2,3,4,7,256],[0,1,2],[0,1,2])})
+H.append({"name":"H_cancel","tiers":T,"scale":"b2","preemptions":1,"bounds":"2-3 files, all damage patterns, no cancellation / cancellation before the call, all consumers; at most 1 preemption","max_seconds":900,
+  "param_sets":grid([2,3],[0,1,2,3,4,7,256,512,2048],[0,1],[0,1,2])})
+H.append({"name":"H_cancel","tiers":T,"scale":"b2","preemptions":0,"bounds":"cancellation right before each of the first 220 visible operations, 2-3 files, all damage patterns, all consumers, canonical schedule","max_seconds":900,
+  "param_sets":grid([2,3],[0,1,2,3,4,7,256,2048],[2],[0,1,2])})
 json.dump({"property":"C16","package":"c16","scale":scale,"harnesses":H,
  "stubs":["os -> memfs (every file-system call is a scheduling point)","context -> model with real cancellation semantics","cooperative scheduler: goroutines switch only at channel/sync/context/file-system operations (sound for data-race-free code), preemption-bounded"],
  "outside":["schedules needing more preemptions than the bound","custom WoundsConsumer implementations (not injectable through the public API)","healing consumer (C06)","real 1024-slot channel (declared capacity scaled to 2)"]},open("config.json","w"),indent=1)
